@@ -222,4 +222,19 @@ theorem mainImpl_last (inherent : Toks) (inside xs : List GenItem) (im : GenImpl
     mainImpl? { inherent := inherent, inside := inside, after := xs ++ [GenItem.impl im] } = some im := by
   simp [mainImpl?, View.items, implsOf_append, implsOf]
 
+
+/-! ### impl generics: lifetimes, then the macro's parameter, then the rest -/
+
+theorem filter_lifetimes_not (ps : List GParam) :
+    (ps.filter GParam.isLifetime).filter (fun q => !q.isLifetime) = [] := by
+  rw [List.filter_filter, List.filter_eq_nil_iff]
+  intro q _
+  cases q.isLifetime <;> simp
+
+theorem macroParam_generic (bv : Bool) (ps : List GParam) :
+    macroParam (implParams .generic bv ps) = some (implTParam bv) := by
+  unfold macroParam implParams
+  simp only [List.filter_append, filter_lifetimes_not, List.nil_append]
+  rfl
+
 end Entrait
